@@ -417,7 +417,7 @@ static int32_t read_uleb128_bounded(
            */
           cur = *ptr;
           *size = *size + 1;
-          result |= cur << 28;
+          result |= (int32_t) ((uint32_t) cur << 28);
         }
       }
     }
